@@ -843,6 +843,8 @@ impl Ty {
                 64 => Some(i64::MAX as u64),
                 // integer literals are at most 64 bits wide, and all of them fit into an i128
                 128 => Some(u64::MAX),
+                // a bit-width of u8::MAX is an isize, which is never wider than 64 bits
+                255 => Some(i64::MAX as u64),
                 _ => None,
             },
             Ty::UInt(bit_width) => match bit_width {
